@@ -33,16 +33,23 @@ CID = {n: i for i, (n, _) in enumerate(CLASSES)}
 ARITY = dict(CLASSES)
 
 
-def rand_tree(rng, depth, counter):
+def rand_tree(rng, depth, counter, made=None):
+    """made: objects generated so far; one of them may occur again (the same object at several places of the tree: each
+    occurrence is rewritten on its own). Leaf 7 is a namedtuple that holds a parsed object: a leaf like any other."""
+    made = [] if made is None else made
     c = rng.random()
+    if made and c < 0.12:
+        return rng.choice(made)
     if depth <= 0 or c < 0.25:
-        return ('x', rng.choice([0, 1, 2, 3, 9]))
+        return ('x', rng.choice([0, 1, 2, 3, 9, 7]))
     if c < 0.45:
-        return ('l', [rand_tree(rng, depth - 1, counter) for _ in range(rng.randint(0, 3))])
+        return ('l', [rand_tree(rng, depth - 1, counter, made) for _ in range(rng.randint(0, 3))])
     cls, ar = rng.choice(CLASSES)
     counter[0] += 1
     pos = rng.randint(1, 50) if rng.random() < 0.6 else None
-    return ('o', cls, counter[0], pos, [rand_tree(rng, depth - 1, counter) for _ in range(ar)])
+    t = ('o', cls, counter[0], pos, [rand_tree(rng, depth - 1, counter, made) for _ in range(ar)])
+    made.append(t)
+    return t
 
 
 def wire(t):
@@ -54,14 +61,23 @@ def wire(t):
     return f'(o {CID[t[1]]} {t[2]}{pos}' + ''.join(' ' + wire(x) for x in t[4]) + ')'
 
 
-def build(mod, t):
+NT = __import__('collections').namedtuple('NT', 'first, last')
+
+
+def build(mod, t, cache=None):
+    cache = {} if cache is None else cache
     if t[0] == 'x':
+        if t[1] == 7:
+            return NT(getattr(mod, CLASSES[0][0])(*([1] * CLASSES[0][1])), 0)      # a leaf that has _fields and _replace of its own
         return t[1] if t[1] != 9 else None
     if t[0] == 'l':
-        return [build(mod, x) for x in t[1]]
-    o = getattr(mod, t[1])(*[build(mod, x) for x in t[4]])
+        return [build(mod, x, cache) for x in t[1]]
+    if t[2] in cache:
+        return cache[t[2]]                   # the same object again
+    o = getattr(mod, t[1])(*[build(mod, x, cache) for x in t[4]])
     if t[3] is not None:
         o._metadata.position_info = t[3]
+    cache[t[2]] = o
     return o
 
 
@@ -69,6 +85,8 @@ def show(v):
     """canonical print of a real value, same format as the driver's printTV"""
     if v is None:
         return '(x 9)'
+    if isinstance(v, NT):
+        return '(x 7)'
     if isinstance(v, int):
         return f'(x {v})'
     if isinstance(v, list):
